@@ -20,9 +20,10 @@ func init() {
 			"(4) dead sessions are dropped: the heartbeat's timeout arm and a failed send mark the session disconnected, every marked session reaches unregisterReplicaSession, GetReplicaInfo filters on Connected, session ids are unique per stream (not derived from the request), and no blocking send runs under a session lock inside the heartbeat's sequential loop. " +
 			"Added after blind round 4: no method of the replication package calls, while holding a lock of its receiver, a method of the same receiver that takes it again (the broadcast loop holds Primary.mu inside wal.Append); the primary's gRPC server pings idle connections (keepalive Time and Timeout set). " +
 			"Added after blind round 5: every write to the content of Primary.sessions holds Primary.mu exclusively. " +
-			"Added after blind round 7: ReplicaSession.Stream is never assigned nil (handlers of dropped sessions keep polling through their own pointer).",
+			"Added after blind round 7: ReplicaSession.Stream is never assigned nil (handlers of dropped sessions keep polling through their own pointer). " +
+			"Added after blind round 8: the node-info handler writes no server state (no remembered replica list).",
 		NotDecided: "latencies, time bounds, 'eventually', TCP-level stalls (need a fault-injecting transport).",
-		Rules:      []func(*Ctx, *Reporter){ruleNoBlockingUnderWAL, ruleWritePathLockCycles, ruleObserversReturnNothing, ruleDeadSessions, ruleReplNoReentrancy, ruleKeepalivePings, ruleSessionsMapWriters, ruleSessionStreamNeverCleared},
+		Rules:      []func(*Ctx, *Reporter){ruleNoBlockingUnderWAL, ruleWritePathLockCycles, ruleObserversReturnNothing, ruleDeadSessions, ruleReplNoReentrancy, ruleKeepalivePings, ruleSessionsMapWriters, ruleSessionStreamNeverCleared, subRulesConstruct(ruleHandlersKeepNoState, "service.KevoServiceServer.GetNodeInfo")},
 	})
 }
 
